@@ -53,6 +53,11 @@ def drive(draw, h, cfg):
         if shape in ('cache+ext', 'long'):
             for _ in range(draw(st.integers(1, 3))):
                 h.failures.extend(h.apply(histprop.draw_ext(draw, h, univ)))
+            anc = [s_[1] for s_ in h.prog_rel['root'] if s_[0] == 'bf' and s_[2] == 'f0'] if 'alt_roots' in h.prog_rel else []
+            if anc and draw(st.booleans()):
+                # ancestor pattern: the recorded output F (an ancestor path of the other target) is stale, so the crashing
+                # build rebuilds it before it requests the path below it
+                h.failures.extend(h.apply([draw(st.sampled_from(['touch', 'write'])), anc[0], 1]))
         if shape == 'long':
             h.failures.extend(h.apply(histprop.draw_build(draw, h, names, fail_p=0.3)))
             for _ in range(draw(st.integers(0, 2))):
